@@ -430,8 +430,11 @@ def gen_history(rng, thorough=False):
             down = sorted(rng.sample(range(S), rng.randrange(0, min(S, 4) + 1))) if rng.random() < 0.5 else []
             steps.append(("read", down))
     steps.append(("read", []))
-    return {"servers": S, "k": k, "n": n, "fmt": fmt, "sched": rng.randrange(1 << 30),
-            "policy": rng.choice(["random", "random", "fifo", "lifo"]), "steps": steps}
+    h = {"servers": S, "k": k, "n": n, "fmt": fmt, "sched": rng.randrange(1 << 30),
+         "policy": rng.choice(["random", "random", "fifo", "lifo"]), "steps": steps}
+    if any(isinstance(x, str) and x.startswith("big:") for st in steps for x in st):
+        h["segsize"] = 4096
+    return h
 
 
 def content_of(field):
@@ -613,7 +616,8 @@ def run_history(ctx, h, acc):
     case = {"kind": "history", "h": h}
     hooks = Hooks()
     saved_seg = publish.DEFAULT_MUTABLE_MAX_SEGMENT_SIZE
-    publish.DEFAULT_MUTABLE_MAX_SEGMENT_SIZE = 16          # configuration: several segments for MDMF
+    # configuration: several segments for MDMF (larger segments for the histories with shares beyond the survey cache)
+    publish.DEFAULT_MUTABLE_MAX_SEGMENT_SIZE = h.get("segsize", 16)
     hooks.install()
     try:
         with grid.Runtime(seed=h["sched"], policy=h["policy"]) as rt:
@@ -988,7 +992,7 @@ HISTORY_CORPUS = [
     # C11-d: v1 on p0..p3; v2 written while p0, p1 are away (p2..p5); p0, p1 return stale; the reader's survey is
     # satisfied by p0..p3; p3 answers the survey and fails every later read; shares too big for the survey cache
 ] + [
-    {"servers": 6, "k": 2, "n": 4, "fmt": f, "sched": sd, "policy": pol,
+    {"servers": 6, "k": 2, "n": 4, "fmt": f, "sched": sd, "policy": pol, "segsize": 4096,
      "steps": [("create", "big:20000:49"), ("away-pub", "big:20000:50", [0, 1]), ("read-flaky", {"3": 1}), ("read", [])]}
     for (f, sd, pol) in [("s", 31, "fifo"), ("m", 32, "fifo"), ("s", 33, "lifo"), ("s", 34, "random"), ("m", 35, "random"),
                          ("s", 36, "random")]
